@@ -24,7 +24,6 @@ Proof.
   rewrite Z.quot_mul by lia. ring.
 Qed.
 
-Definition poly2 (s k : Z) : Z := (s - 2) * k * k - (s - 4) * k.   (* twice the polygonal number *)
 
 Theorem polygonal_root_correct s x :
   3 <= s -> 1 <= x ->
